@@ -288,7 +288,6 @@ func canonView(l []upd) string {
 
 // nontrivial: >= 2 distinct terms, a no-leader update carrying the highest term, a duplicate.
 func nontrivial(us []upd) bool {
-	type key struct{ shard uint64 }
 	maxTerm := map[uint64]uint64{}
 	terms := map[[2]uint64]bool{}
 	for _, u := range us {
